@@ -41,7 +41,7 @@ Definition g_edges_view (g : digraph) : list (node * node) :=
   flat_map (fun u => map (fun v => (u, v)) (children g u)) (nodes g).
 
 (* ------------------------------------------------------------------ errors *)
-Inductive err := EValue | EAttr | ENotImpl | ENx | EBadId.
+Inductive err := EValue | EAttr | ENotImpl | ENx | EBadId | EIndex.
 Inductive out := Ok | Err (e : err).
 
 (* BayesianNetwork.add_edge on the graph component: None = ValueError *)
@@ -157,7 +157,10 @@ Definition cpd_feq (a b : cpd) : bool :=
              (all_idx (c_vcard a :: c_ecard a)).
 
 (* ------------------------------------------------------------------ the store *)
-Record bn := { bg : digraph; blat : nat; bcpds : list nat }.
+(* [bnw] / [bew]: write logs (newest first) of the 'weight' attribute networkx stores for nodes / edges;
+   weight 0 stands for None.  The attribute of an existing node or edge is the newest entry for it. *)
+Record bn := { bg : digraph; blat : nat; bcpds : list nat;
+               bnw : list (node * nat); bew : list (node * node * nat) }.
 Record state := { hl : list (list node); hc : list cpd; ms : list bn }.
 Definition init : state := {| hl := []; hc := []; ms := [] |}.
 
@@ -172,9 +175,16 @@ Definition get_c (s : state) (l : nat) : cpd := nth l (hc s) dflt_cpd.
 Definition set_hl (s : state) (h : list (list node)) : state := {| hl := h; hc := hc s; ms := ms s |}.
 Definition set_hc (s : state) (h : list cpd) : state := {| hl := hl s; hc := h; ms := ms s |}.
 Definition set_ms (s : state) (m : list bn) : state := {| hl := hl s; hc := hc s; ms := m |}.
-Definition set_bg (m : bn) (g : digraph) : bn := {| bg := g; blat := blat m; bcpds := bcpds m |}.
-Definition set_blat (m : bn) (l : nat) : bn := {| bg := bg m; blat := l; bcpds := bcpds m |}.
-Definition set_bcpds (m : bn) (c : list nat) : bn := {| bg := bg m; blat := blat m; bcpds := c |}.
+Definition set_bg (m : bn) (g : digraph) : bn :=
+  {| bg := g; blat := blat m; bcpds := bcpds m; bnw := bnw m; bew := bew m |}.
+Definition set_blat (m : bn) (l : nat) : bn :=
+  {| bg := bg m; blat := l; bcpds := bcpds m; bnw := bnw m; bew := bew m |}.
+Definition set_bcpds (m : bn) (c : list nat) : bn :=
+  {| bg := bg m; blat := blat m; bcpds := c; bnw := bnw m; bew := bew m |}.
+Definition log_nw (m : bn) (w : list (node * nat)) : bn :=
+  {| bg := bg m; blat := blat m; bcpds := bcpds m; bnw := w ++ bnw m; bew := bew m |}.
+Definition log_ew (m : bn) (w : list (node * node * nat)) : bn :=
+  {| bg := bg m; blat := blat m; bcpds := bcpds m; bnw := bnw m; bew := w ++ bew m |}.
 Definition set_add (x : node) (l : list node) : list node := if memn x l then l else l ++ [x].
 
 (* get_cpds(node): None = ValueError (node not in graph); Some None = returns None *)
@@ -286,7 +296,8 @@ Definition m_remove_node (s : state) (m : bn) (x : node) : state * bn * out :=
           (* self.latents = self.latents - {node}: a NEW set object *)
           let nl := length (hl s1) in
           let s2 := set_hl s1 (hl s1 ++ [filter (fun y => negb (Nat.eqb y x)) (get_l s1 (blat m))]) in
-          (s2, set_bg (set_blat m1 nl) (g_remove_node (bg m) x), Ok)
+          (* networkx forgets the node's attributes: a node re-created by add_edge has no weight *)
+          (s2, log_nw (set_bg (set_blat m1 nl) (g_remove_node (bg m) x)) [(x, 0)], Ok)
       end
   end.
 Fixpoint m_remove_nodes (s : state) (m : bn) (xs : list node) : state * bn * out :=
@@ -306,7 +317,10 @@ Definition copy_model (s : state) (m : bn) : option (state * bn) :=
   | (_, Err _) => None
   | (g1, Ok) =>
       (* the new model's own default latents set, replaced at the end by set(self.latents) *)
-      let m0 := {| bg := g1; blat := length (hl s) + 1; bcpds := [] |} in
+      (* add_nodes_from(self.nodes()) / add_edges_from(self.edges()): the copy carries no weights *)
+      let m0 := {| bg := g1; blat := length (hl s) + 1; bcpds := [];
+                   bnw := map (fun x => (x, 0)) (nodes (bg m));
+                   bew := map (fun e => (fst e, snd e, 0)) (g_edges_view (bg m)) |} in
       match m_add_cpds s m0 (map (get_c s) (bcpds m)) with
       | (_, _, Err _) => None
       | (s1, m1, Ok) =>
@@ -354,8 +368,11 @@ Definition rand_cpd (g : digraph) (ns : list (node * nat)) (draws : list Qc) (x 
 (* ------------------------------------------------------------------ operations *)
 Inductive op :=
 | NewBN (eb : list (node * node)) (lat : list node)          (* BayesianNetwork(ebunch, latents) *)
-| AddNodes (a : nat) (xs : list (node * bool))               (* add_node / add_nodes_from *)
-| AddEdges (a : nat) (es : list (node * node))               (* add_edge / add_edges_from *)
+(* add_node(x, weight, latent) / add_nodes_from(xs, weights, latent): ws = [] stands for weights=None (or
+   any falsy value), lat is the latent flag per node (a bool is expanded by the caller) and may be too short *)
+| AddNodes (a : nat) (xs : list node) (ws : list nat) (lat : list bool)
+(* add_edge(u, v, weight) / add_edges_from(es, weights) *)
+| AddEdges (a : nat) (es : list (node * node)) (ws : list nat)
 | RemoveNodes (a : nat) (xs : list node)                     (* remove_node / remove_nodes_from *)
 | AddCpds (a : nat) (cs : list cpd)
 | RemoveCpds (a : nat) (xs : list node)
@@ -364,6 +381,18 @@ Inductive op :=
 | Copy (a : nat)
 | RandomCpds (a : nat) (isdict : bool) (ns : list (node * nat)) (draws : list Qc) (inplace : bool).
 
+(* `if weights:` then `len(...) != len(weights)` -> ValueError *)
+Definition wlen_bad (n : nat) (ws : list nat) : bool :=
+  match ws with [] => false | _ => negb (Nat.eqb n (length ws)) end.
+(* the edges add_edges_from really added before the first rejected one *)
+Fixpoint added_prefix (g : digraph) (es : list (node * node)) : list (node * node) :=
+  match es with
+  | [] => []
+  | (u, v) :: r => match bn_add_edge_g g u v with
+                   | None => []
+                   | Some g' => (u, v) :: added_prefix g' r
+                   end
+  end.
 Definition commit (s : state) (a : nat) (m : bn) : state := set_ms s (upd (ms s) a m).
 Definition push (s : state) (m : bn) : state := set_ms s (ms s ++ [m]).
 Definition subsetb (a b : list node) : bool := forallb (fun x => memn x b) a.
@@ -377,18 +406,33 @@ Definition step (s : state) (o : op) : state * out :=
       | (_, Err _) => (s, Err ENx)          (* networkx wraps the ValueError of add_edge *)
       | (g, Ok) =>
           if acyclicb g
-          then (push (set_hl s (hl s ++ [dedupn lat])) {| bg := g; blat := length (hl s); bcpds := [] |}, Ok)
+          then (push (set_hl s (hl s ++ [dedupn lat]))
+                     {| bg := g; blat := length (hl s); bcpds := []; bnw := []; bew := map (fun e => (fst e, snd e, 0)) eb |}, Ok)
           else (s, Err EValue)
       end
-  | AddNodes a xs =>
+  | AddNodes a xs ws lat =>
       match nth_error (ms s) a with
       | None => (s, Err EBadId)
-      | Some m => let (s', m') := m_add_nodes s m xs in (commit s' a m', Ok)
+      | Some m =>
+          if wlen_bad (length xs) ws then (s, Err EValue)      (* checked before anything is added *)
+          else
+            (* node i needs latent[i]: IndexError at the first missing flag, earlier nodes stay *)
+            let xl := combine xs lat in
+            let (s', m') := m_add_nodes s m xl in
+            (commit s' a (log_nw m' (rev (combine (map fst xl) (ws ++ repeat 0 (length xl))))),
+             if Nat.ltb (length lat) (length xs) then Err EIndex else Ok)
       end
-  | AddEdges a es =>
+  | AddEdges a es ws =>
       match nth_error (ms s) a with
       | None => (s, Err EBadId)
-      | Some m => let (g', o) := bn_add_edges_g (bg m) es in (commit s a (set_bg m g'), o)
+      | Some m =>
+          if wlen_bad (length es) ws then (s, Err EValue)
+          else
+            let (g', o) := bn_add_edges_g (bg m) es in
+            let done := added_prefix (bg m) es in
+            (commit s a (log_ew (set_bg m g')
+                           (rev (map (fun ew => (fst (fst ew), snd (fst ew), snd ew))
+                                     (combine done (ws ++ repeat 0 (length done)))))), o)
       end
   | RemoveNodes a xs =>
       match nth_error (ms s) a with
@@ -516,7 +560,7 @@ Definition sym (g : digraph) : digraph :=
 Definition disjointb (a b : list nat) : bool := forallb (fun x => negb (memn x b)) a.
 Inductive jop :=
 | JAddNodes (xs : list nat)
-| JAddEdges (es : list ((nat * list nat) * (nat * list nat))).   (* ((u, vars u), (v, vars v)) *)
+| JAddEdges (es : list ((nat * list nat) * (nat * list nat))) (ws : list nat).   (* ((u, vars u), (v, vars v)); weights *)
 Definition jt_add_edge (g : digraph) (e : (nat * list nat) * (nat * list nat)) : digraph * out :=
   let '((u, cu), (v, cv)) := e in
   (* since 1e667dd: u == v is rejected first *)
@@ -534,6 +578,6 @@ Fixpoint jt_add_edges (g : digraph) (es : list ((nat * list nat) * (nat * list n
 Definition jstep (g : digraph) (o : jop) : digraph * out :=
   match o with
   | JAddNodes xs => (fold_left g_add_node xs g, Ok)
-  | JAddEdges es => jt_add_edges g es
+  | JAddEdges es ws => if wlen_bad (length es) ws then (g, Err EValue) else jt_add_edges g es
   end.
 Definition jrun (g : digraph) (ops : list jop) : digraph := fold_left (fun g o => fst (jstep g o)) ops g.
